@@ -82,8 +82,8 @@ theorem C03_source_orderings_and_program_order :
     (∀ w, Gen.prodSucc w = .cons ∧ Gen.workSucc w = .prod ∧ Gen.consSucc w = (if w then .work else .prod)) ∧
     Gen.skelPush = [⟨.nextRefMutInit, .none⟩, ⟨.userF, .many⟩, ⟨.advance, .lit 1⟩] ∧
     Gen.skelExtractItem = [⟨.nextRef, .none⟩, ⟨.userF, .many⟩, ⟨.advance, .lit 1⟩] ∧
-    Gen.skelPushSlice.map (·.name) = [.nextChunkMut, .userF, .userF, .userF, .advance] ∧
-    Gen.skelExtractSlice.map (·.name) = [.nextChunkMut, .userF, .userF, .userF, .advance] ∧
+    Call.bracketed .nextChunkMut Gen.skelPushSlice = true ∧
+    Call.bracketed .nextChunkMut Gen.skelExtractSlice = true ∧
     Gen.skelNext = [⟨.check, .lit 1⟩, ⟨.takeInner, .none⟩, ⟨.advance', .lit 1⟩] ∧
     Gen.skelNextDuplicate = [⟨.check, .lit 1⟩, ⟨.innerDuplicate, .none⟩, ⟨.advance', .lit 1⟩] ∧
     Gen.skelAdvance = [⟨.advanceLocal, .count⟩, ⟨.setAtomicIndex, .index⟩] :=
